@@ -14,10 +14,20 @@ for f in sorted(glob.glob('/tmp/corpus/*.txt')):
         props=[p for p in props if any(True for v in re.findall(r'^%s quick:.*?(?=^C\d\d quick:|\Z)'%p, txt, re.M|re.S) if re.search(r'^  (VIOLATED|UNDECIDED)', v, re.M))]
     rows.append((kind,nm,props,viol,broken,stale,old))
 miss=[r for r in rows if r[0]=='S' and not r[2]]
-fa=[r for r in rows if r[0]=='B' and (r[2] or r[4])]
+try:
+    idx=json.load(open('/verif/benign/index.json'))
+except Exception:
+    idx={}
+def unexpected(r):
+    lim=set(idx.get(r[1],{}).get('still_alarming',[]))
+    return [p for p in r[2] if p not in lim]
+fa=[r for r in rows if r[0]=='B' and (unexpected(r) or r[4])]
+lim=[r for r in rows if r[0]=='B' and r[2] and not unexpected(r) and not r[4]]
 print("seeded: %d, detected %d, MISSED %d"%(sum(1 for r in rows if r[0]=='S'), sum(1 for r in rows if r[0]=='S' and r[2]), len(miss)))
 for r in miss: print("  MISSED", r[1], "(stale patch)" if r[5] else "")
 print("benign: %d, silent %d, FALSE ALARMS %d"%(sum(1 for r in rows if r[0]=='B'), sum(1 for r in rows if r[0]=='B' and not r[2] and not r[4]), len(fa)))
+print("benign with alarms recorded as limits of the analysis (higher-order / table-driven / anchor replaced): %d"%len(lim))
+for r in lim: print("  LIMIT", r[1], r[2])
 for r in fa:
     print("  ALARM", r[1], r[2], "(old base)" if r[6] else "", "BROKEN" if r[4] else "")
     if '-v' in sys.argv:
